@@ -242,7 +242,7 @@ def level1(ctx: fw.Ctx, C: Cases) -> None:
             level1_sequence(ctx, C, list(ops))
             n += 1
     ctx.count('sequences', 'index-exhaustive', n)
-    for _ in range(ctx.scale(600, 20000)):
+    for _ in range(ctx.scale(400, 8000)):
         ops = []
         for _ in range(r.choice([2, 4, 6, 8, 10, 14])):
             o = r.randrange(len(OBJECTS))
@@ -279,7 +279,7 @@ def level2(ctx: fw.Ctx, C: Cases) -> None:
     class _H:
         def __init__(self, id: str) -> None:
             self.id = id
-    for _ in range(ctx.scale(300, 6000)):
+    for _ in range(ctx.scale(250, 3000)):
         ixs = indexing.OperatorIndexers()
         ixs.ensure([_H(h) for h in hids])   # type: ignore[list-item]
         ref = Reference(hids)
@@ -576,7 +576,7 @@ def level3(ctx: fw.Ctx, C: Cases) -> None:
     for hcfgs, events in CORPUS3:
         level3_history(ctx, C, hcfgs, events)
         ctx.count('sequences', 'event-corpus')
-    for _ in range(ctx.scale(500, 12000)):
+    for _ in range(ctx.scale(400, 6000)):
         hcfgs = gen_hcfgs(r)
         level3_history(ctx, C, hcfgs, gen_history(r, hcfgs))
         ctx.count('sequences', 'event-random')
